@@ -315,10 +315,11 @@ type c08Outer struct {
 	Ptr  *c08Inner      `json:"ptr,optional"`
 	List []int          `json:"list,optional"`
 	M    map[string]int `json:"m,optional"`
+	Req  *int           `json:"req,range=[0:9]"`
 }
 
-//verif:entry tier=quick,thorough steps=4000000 maporder=first cover=accepted,rejected,nestedmissing,nestedrange,pointer,slice,mapfield
-//verif:doc Unmarshaler("json").Unmarshal into struct{In Inner; Ptr *Inner optional; List []int optional; M map[string]int optional} with Inner{V int range=[0:9]; W string optional}: nested maps present or absent, V symbolic in +-2^20 (or missing), list of 0..2 symbolic ints, map of 0..1 entries: accepted iff the required nested struct and its required field are supplied and every supplied V lies in its range; the target then mirrors the input exactly (nested values, pointer allocated only when supplied, slice and map contents).
+//verif:entry tier=quick,thorough steps=4000000 maporder=first cover=accepted,rejected,nestedmissing,nestedrange,pointer,slice,mapfield,requiredpointer
+//verif:doc Unmarshaler("json").Unmarshal into struct{In Inner; Ptr *Inner optional; List []int optional; M map[string]int optional; Req *int range=[0:9] (required)} with Inner{V int range=[0:9]; W string optional}: nested maps present or absent, V symbolic in +-2^20 (or missing), list of 0..2 symbolic ints, map of 0..1 entries: accepted iff the required nested struct and its required field are supplied and every supplied V lies in its range; the target then mirrors the input exactly (nested values, pointer allocated only when supplied, slice and map contents).
 func Verif_C08_StructNested() {
 	m := map[string]any{}
 	ok := true
@@ -365,10 +366,19 @@ func Verif_C08_StructNested() {
 		}
 		m["m"] = mm
 	}
+	hasReq := rt.Bool("hasReq")
+	reqV := rt.Int("reqV", -3, 12)
+	if hasReq {
+		m["req"] = int(reqV)
+		ok = ok && reqV >= 0 && reqV <= 9
+	} else {
+		ok = false // a required scalar behind a pointer must be supplied like any other
+	}
 	var t c08Outer
 	err := NewUnmarshaler("json").Unmarshal(m, &t)
 	if !ok {
 		rt.Cover("rejected")
+		rt.CoverIf(!hasReq, "requiredpointer")
 		rt.CoverIf(hasIn && !inHasV, "nestedmissing")
 		rt.CoverIf(hasIn && inHasV && (inV < 0 || inV > 9), "nestedrange")
 		rt.Assert(err != nil, "a missing required nested struct or nested field, or a nested number outside its range, is rejected")
@@ -377,6 +387,7 @@ func Verif_C08_StructNested() {
 	rt.Cover("accepted")
 	rt.Assert(err == nil, "input meeting all declared constraints is accepted")
 	rt.Assert(int64(t.In.V) == inV && t.In.W == w, "the nested struct holds the supplied values")
+	rt.Assert(t.Req != nil && int64(*t.Req) == reqV, "the required pointer scalar holds the supplied value")
 	if hasPtr {
 		rt.Cover("pointer")
 		rt.Assert(t.Ptr != nil && int64(t.Ptr.V) == ptrV && t.Ptr.W == "", "the pointed-to nested struct holds the supplied values")
